@@ -300,6 +300,9 @@ def truth(st, v):
         raise EngineUnsupported("truth of a havocked local without a declared kind")
     if isinstance(v, SBool):
         return v.t
+    from pyvc.values import STruthy
+    if isinstance(v, STruthy):
+        return v.t
     if isinstance(v, SInt):
         return v.t != 0
     if isinstance(v, SBits):
@@ -601,10 +604,11 @@ def str_eq(st, a, b):
                 if isinstance(seg, str):
                     rx += re.escape(seg)
                 elif isinstance(seg, Fmt):
-                    w = {"02d": "{2,}", "03d": "{3,}", "d": "+"}.get(seg.spec)
-                    if w is None:
+                    mw = re.fullmatch(r"0?(\d*)d", seg.spec)
+                    if mw is None:
                         rx = None
                         break
+                    w = "{%d,}" % int(mw.group(1)) if mw.group(1) else "+"
                     rx += r"(\d" + w + ")"
                     fm.append(seg)
                 else:
